@@ -153,8 +153,9 @@ def _nontrivial(status, feats, stats):
 
 
 run, _plan, replay, shrink = P.make(PID, check_program, _nontrivial)
+PROG_BUILD = run.build
 
 
 def plan(tier, seed):
     # the dispatch-loop interpreter is ~4x slower than a regenerated function
-    return _plan(tier, seed, quick=(90, 8, 32, 30, 2), thorough=(500, 10, 96, 200, 3))
+    return _plan(tier, seed, quick=(90, 8, 32, 30, 2), thorough=(500, 10, 96, 200, 3), fuzz_mod=__name__)
